@@ -1640,7 +1640,9 @@ def systematic_plans(seed, spec):
         kb = ka if fam == "C2" else kinds[(pi // 3) % 3]
         a0 = {"id": "c0o0", "kind": ka, "text": good, "linger": False}
         a1 = {"id": "c0o1", "kind": ka, "text": good, "linger": False}
-        b0 = {"id": "c1o0", "kind": kb, "text": bad if pi % 2 else "title eq 'x' and rating gt 1",
+        # in C2 the other client's call must succeed (and so leave its own filter behind)
+        b0 = {"id": "c1o0", "kind": kb,
+              "text": bad if (pi % 2 and fam == "C") else "title eq 'x' and rating gt 1",
               "linger": False}
         n, _ = dry.get(a0, False)
         ops0 = [dict(a0)] if fam == "C" else [dict(a0), dict(a1)]
